@@ -429,3 +429,88 @@ def add_kerning(model, rng, pairs=20, groups=True, divergent=0.0, partial=0.0, z
         m["groups"] = {k: v for k, v in gr.items() if v}
         m["kerning"] = kern
     return model
+
+
+def hostile_axes(model, rng):
+    """Rewrite the axis maps with hostile shapes (C08); master locations are carried through the new maps."""
+    old = {a["tag"]: dict(a) for a in model["axes"]}
+    for a in model["axes"]:
+        lo, hi = a["min"], a["max"]
+        shape = rng.random()
+        if shape < 0.2:
+            a["default"] = lo
+        elif shape < 0.35:
+            a["default"] = hi
+        elif shape < 0.6:
+            a["default"] = round(lo + (hi - lo) * rng.random(), 1)
+        kind = rng.random()
+        if kind < 0.15:
+            a["map"] = []
+            continue
+        n = rng.randint(0, 6)
+        users = sorted({lo, a["default"], hi} | {round(lo + (hi - lo) * rng.random(), rng.choice([0, 0, 1, 2])) for _ in range(n)})
+        if kind < 0.4 and len(users) >= 4:
+            # mostly on the identity line, one or two interior stops bent (stops that look redundant but are breakpoints)
+            m = [[u, u] for u in users]
+            inner = [i for i, u in enumerate(users) if u not in (lo, hi, a["default"])]
+            for i in rng.sample(inner, min(len(inner), rng.randint(1, 2))):
+                left, right = users[i - 1], users[i + 1]
+                m[i][1] = round(users[i] + (rng.choice([left, right]) - users[i]) * rng.uniform(0.2, 0.6), 1)
+            a["map"] = m
+            continue
+        d = round(rng.uniform(-50, 200), rng.choice([0, 1]))
+        m = []
+        for i, u in enumerate(users):
+            if i:
+                du = u - users[i - 1]
+                slope = rng.choice([0.05, 0.2, 0.5, 1, 1, 2, 5, 20])
+                if kind > 0.9 and rng.random() < 0.3:
+                    slope = 0  # flat segment
+                d = max(d, round(d + du * slope * rng.uniform(0.8, 1.2), rng.choice([0, 1, 3])))
+            m.append([u, d])
+        if kind > 0.8 and all(u == dd for u, dd in m):
+            pass
+        a["map"] = m
+    # carry master / instance locations: they were placed on the old design bounds
+    for mm in model["masters"]:
+        for a in model["axes"]:
+            o = old[a["tag"]]
+            d = mm["design_loc"][a["tag"]]
+            olo, odf, ohi = design_bounds(o)
+            nlo, ndf, nhi = design_bounds(a)
+            if d == odf:
+                nd = ndf
+            elif d == olo:
+                nd = nlo
+            elif d == ohi:
+                nd = nhi
+            else:
+                t = normalize_design(o, d)
+                nd = ndf + t * (nhi - ndf) if t > 0 else ndf + t * (ndf - nlo)
+            mm["design_loc"][a["tag"]] = nd
+    for inst in model["instances"]:
+        for a in model["axes"]:
+            inst["user_loc"][a["tag"]] = min(max(inst["user_loc"][a["tag"]], a["min"]), a["max"])
+    # a master cannot sit where the new map collapses it onto the default
+    seen = set()
+    keep = []
+    for mm in model["masters"]:
+        key = tuple(sorted(mm["design_loc"].items()))
+        if key in seen:
+            for g in model["glyphs"]:
+                g["layers"].pop(mm["name"], None)
+            continue
+        seen.add(key)
+        keep.append(mm)
+    model["masters"] = keep
+    return model
+
+
+def production_names(model, rng, share=0.5):
+    names = {}
+    for g in model["glyphs"]:
+        if g["export"] and g["name"] != ".notdef" and rng.random() < share:
+            names[g["name"]] = "prod." + g["name"] + str(rng.randint(0, 9))
+    if names:
+        model["lib"]["public.postscriptNames"] = names
+    return model
